@@ -52,6 +52,17 @@ node -> `binding_of`; (4) path coverage ("effect on every accepted path, except 
 (`covered`, `escaping_path`, `guard_anchor`), with validation guards (other side only raises) removed from path conditions
 and implied negated conjunctions dropped; (5) a required effect that is not found while the function hands work to a helper
 the rule cannot follow ends UNDECIDED (`A.absent`), never REFUTED.
+
+Round 3 generalisations: insert_index judges the anchor on the Expander-folded expression (if/else arms, fill loops, spliced
+helpers, a local for the normalised index), accepts `if i < len(L): move(t, before=L[i])` and the `L = copy; L.remove(t)` idiom,
+and times the lookup by the statements that READ the facade list (`_facade_read_nodes`), not by where the subscript stands;
+move_index splits the insert position into cases (`_index_variants`: per-branch locals incl. `a, k = x, 0` pairs hoisted out of
+the loop, conditional expressions); sort accepts a key function held in a local assigned per branch or built by a helper from
+`key` (`_helper_key_kinds`) and list.sort arguments made positional by the normaliser; delegation.wbs follows an entry point that
+only guards and forwards to a private recursive worker (`_trampoline`), frame follows private helpers called on self; receivers /
+loop sources of unknown provenance end UNDECIDED (a filtered comprehension as loop source is read as loop + condition:
+`elem_class_filtered`).  New obligation clause in append_last: an exit of the parent setter that does nothing when the given
+parent already is the task's parent is refuted (re-appending a member must move it last).
 """
 from __future__ import annotations
 
@@ -3184,6 +3195,50 @@ def _facade_read_nodes(a: A, f, e, at, _seen=None) -> List[Node]:
     return out
 
 
+def _copy_minus_task(a: A, f, name, T):
+    """local `name` is a plain copy of the facade's list from which the task is taken out (`name.remove(T)`, unconditionally
+    or under `T in name`) before the local is read anywhere else:  'ok' | ('refute', message) | None (another idiom)"""
+    fl, cfg = flow_of(f), cfg_of(f)
+    ds = fl.defs_of(name)
+    if len(ds) != 1 or ds[0].kind != 'assign' or ds[0].value is None or ds[0].node is None:
+        return None
+    t = norm_list(ds[0].value)
+    if not (is_plain_copy(t) and _is_facade_list(a, f, list_source(t))):
+        return None
+    muts = _local_mutations(f, name)
+    if len(muts) != 1 or muts[0].func.attr != 'remove' or len(muts[0].args) != 1:
+        return None
+    if not (isinstance(muts[0].args[0], ast.Name) and muts[0].args[0].id == T):
+        return ('refute', f"`{src(muts[0])}` takes another task than the inserted one out of the copy of the list: the task itself "
+                          f"is still counted when the anchor is looked up")
+    rn = cfg.node_containing(muts[0])
+    if rn is None or not cfg.dominates(ds[0].node, rn) or cfg.enclosing_fors(rn):
+        return None
+    guard = rn
+    for at, pol, tst in _raw_atoms(f, rn):
+        if [x for x in _raw_atoms(f, ds[0].node) if x[2] is tst]:
+            continue        # a condition the copy itself stands under
+        if match(f"{T} in {name}", at) and pol or match(f"{T} not in {name}", at) and not pol:
+            guard = cfg.node_containing(tst) or guard
+            continue
+        return None
+    # every other read of the local comes after the removal (or its membership test)
+    early, unknown = [], False
+    for n in walk_no_nested(f.node):
+        if isinstance(n, ast.Name) and n.id == name and isinstance(n.ctx, ast.Load):
+            un = cfg.node_containing(n)
+            if un is None or un is rn or un is guard:
+                continue
+            if cfg.can_reach(un, guard) and not cfg.can_reach(guard, un) and un is not ds[0].node:
+                early.append(un)
+            elif not cfg.dominates(guard, un):
+                unknown = True
+    if early:
+        return ('refute', f"the copy of the list is read (`{src(early[0].ast)[:60]}`) BEFORE the task is taken out of it "
+                          f"(`{src(muts[0])}`): the task itself is counted when the index is resolved")
+    return None if unknown else 'ok'
+
+
 def _neg_index_form(e, IDX, L):
     """`max(len(L) + IDX, 0) if IDX < 0 else IDX`  (list.insert's treatment of negative indexes, as one expression)"""
     if not isinstance(e, ast.IfExp):
@@ -3365,14 +3420,22 @@ def insert_index(a: A, ctx):
         t = norm_list(L)
         if t[0] == 'concat' and len(t[1]) == 2 and t[1][0][0] == 'lit' and not t[1][0][1]:
             t = t[1][1]         # `[] + [x for ..]`: the folded form of a list filled by a loop
-        if t[0] == 'ref' and _is_facade_list(a, f, L):
+        cm = _copy_minus_task(a, f, L.id, T) if t[0] == 'ref' and isinstance(L, ast.Name) else None
+        if cm is not None and cm != 'ok':
+            o.refute(f, c, L, f"{what}: {cm[1]}")
+            return
+        if cm == 'ok':
+            t = None        # `L = list.copy(); if task in L: L.remove(task)`: the children without the task, old order
+        if t is None:
+            pass
+        elif t[0] == 'ref' and _is_facade_list(a, f, L):
             o.refute(f, c, an, f"{what}: the anchor is taken from the list that may still contain the task itself: moving a member "
                                f"to a later index lands one position too early / on itself")
             return
-        if t[0] != 'filter' or not _is_facade_list(a, f, list_source(('filter', t[1], t[2], []))):
+        elif t[0] != 'filter' or not _is_facade_list(a, f, list_source(('filter', t[1], t[2], []))):
             o.undecided(f, c, L, f"{what}: anchor list is not the children list without the task")
             return
-        kinds = [cmp_kind(cc, t[2], ast.Name(id=T, ctx=ast.Load())) for cc in t[3]] if t[2] else []
+        kinds = ['ne'] if t is None else [cmp_kind(cc, t[2], ast.Name(id=T, ctx=ast.Load())) for cc in t[3]] if t[2] else []
         if kinds != ['ne']:
             if any(k.startswith('id-') for k in kinds):
                 o.refute(f, c, L, f"{what}: the task is taken out of the anchor list by id comparison instead of identity")
